@@ -40,6 +40,12 @@ func (b *Buffer) Put(key, value []byte) {
 	defer b.mu.Unlock()
 
 	// Store in the operations map - skiplist handles defensive copying
+	// Capture key and value now: the caller may reuse its slices after the call
+	key = append([]byte{}, key...)
+	if value != nil {
+		value = append([]byte{}, value...)
+	}
+
 	b.operations[string(key)] = &Operation{
 		Key:      key,
 		Value:    value,
@@ -53,6 +59,9 @@ func (b *Buffer) Delete(key []byte) {
 	defer b.mu.Unlock()
 
 	// Store in the operations map - skiplist handles defensive copying
+	// Capture the key now: the caller may reuse its slice after the call
+	key = append([]byte{}, key...)
+
 	b.operations[string(key)] = &Operation{
 		Key:      key,
 		Value:    nil,
